@@ -55,7 +55,88 @@ func (e *Enc) call(fr *Frame, v *ssa.Call, cc *ssa.CallCommon, st *State, reach 
 	}
 }
 
+// callSiteClauses: assertions of the function under proof about its own locals at a call of the named callee.
+func (e *Enc) callSiteClauses(fr *Frame, v *ssa.Call, cc *ssa.CallCommon, st *State, reach Term, pos string) {
+	if !fr.isTop || fr.con == nil || len(fr.con.CallSites) == 0 || v == nil {
+		return
+	}
+	name := ""
+	if callee := cc.StaticCallee(); callee != nil {
+		name = callee.Name()
+	} else if g, ok := cc.Value.(*ssa.UnOp); ok {
+		if gl, ok := g.X.(*ssa.Global); ok {
+			name = gl.Name()
+		}
+	}
+	if name == "" && !cc.IsInvoke() {
+		if _, isB := cc.Value.(*ssa.Builtin); !isB {
+			// call through a function value: "@dyn#k", k-th such call of the function in source order
+			name = fmt.Sprintf("@dyn#%d", dynOrdinal(fr.fn, v))
+		}
+	}
+	long := ""
+	if callee := cc.StaticCallee(); callee != nil {
+		long = shortFuncName(callee.String())
+	}
+	for _, cs := range fr.con.CallSites {
+		if cs.Callee != name && cs.Callee != long {
+			continue
+		}
+		if e.csHit == nil {
+			e.csHit = map[string]bool{}
+		}
+		e.csHit[cs.Callee+" "+cs.Clause.Label] = true
+		env := e.loopEnv(fr, v.Block(), st, nil)
+		env.pre = nil
+		k := 0
+		if cc.IsInvoke() {
+			env.vars["$arg0"] = TT{e.val(fr, cc.Value), cc.Value.Type()}
+			k = 1
+		}
+		for _, a := range cc.Args {
+			env.vars[fmt.Sprintf("$arg%d", k)] = TT{e.val(fr, a), a.Type()}
+			k++
+		}
+		g, err := env.evalBool(cs.Clause.E)
+		if err != nil {
+			e.problem("callsite %s %s: %v", cs.Callee, cs.Clause.Label, err)
+			continue
+		}
+		e.oblige(fmt.Sprintf("%s:callsite:%s:%s", e.topName(), cs.Callee, cs.Clause.Label), "ensures", reach, g, pos)
+	}
+}
+
+// dynOrdinal: position (from 1, in source order) of a call through a function value among such calls of fn.
+func dynOrdinal(fn *ssa.Function, v *ssa.Call) int {
+	var calls []*ssa.Call
+	for _, b := range fn.Blocks {
+		for _, ins := range b.Instrs {
+			c, ok := ins.(*ssa.Call)
+			if !ok || c.Common().IsInvoke() || c.Common().StaticCallee() != nil {
+				continue
+			}
+			if _, isB := c.Common().Value.(*ssa.Builtin); isB {
+				continue
+			}
+			if g, ok := c.Common().Value.(*ssa.UnOp); ok {
+				if _, ok := g.X.(*ssa.Global); ok {
+					continue
+				}
+			}
+			calls = append(calls, c)
+		}
+	}
+	sort.SliceStable(calls, func(i, j int) bool { return calls[i].Pos() < calls[j].Pos() })
+	for i, c := range calls {
+		if c == v {
+			return i + 1
+		}
+	}
+	return 0
+}
+
 func (e *Enc) callInner(fr *Frame, v *ssa.Call, cc *ssa.CallCommon, st *State, reach Term, pos string) {
+	e.callSiteClauses(fr, v, cc, st, reach, pos)
 	sig := cc.Signature()
 	var res ssa.Value
 	if v != nil {
@@ -153,7 +234,7 @@ func ifaceMethodKey(cc *ssa.CallCommon) string {
 }
 
 func (e *Enc) havocCall(fr *Frame, res ssa.Value, what string, sig *types.Signature, st *State, reach Term) {
-	e.havocAll(st)
+	e.havocAllCall(st)
 	e.noteAssume("havoc at call to " + what + " in " + fr.fn.Name())
 	rs := e.freshResults("hv_"+what, sig, st, reach)
 	e.setResults(fr, res, sig, rs)
@@ -311,7 +392,7 @@ func (e *Enc) applyContract(fr *Frame, c *Contract, key string, args []Term, arg
 		}
 	}
 	if c.ModAll {
-		e.havocAll(st)
+		e.havocAllCall(st)
 	}
 	for _, m := range c.Modifies {
 		if err := env.havocTarget(m, pre, st); err != nil {
@@ -367,6 +448,11 @@ func (e *Enc) applyContract(fr *Frame, c *Contract, key string, args []Term, arg
 			h = store(h, Term{"3", SInt}, rs[0])
 		}
 		e.heapSet(st, ck, h)
+		if len(rs) > 0 && rs[0].Sort == SInt && e.w.CS.Ghosts["opres"] != nil {
+			// a result that is a pointer, a map or an integer: opres[id] is the last such result of operation id
+			rk, _ := e.ghostKey("opres")
+			e.heapSet(st, rk, store(e.heapGet(st, rk), intLit64(int64(c.Traced)), rs[0]))
+		}
 		if e.w.CS.Ghosts["opat"] != nil {
 			// sequence numbers: opat[0] counts traced calls, opat[id] is the number of the last call of operation id
 			ak, _ := e.ghostKey("opat")
@@ -400,7 +486,7 @@ func (e *Enc) builtin(fr *Frame, v *ssa.Call, b *ssa.Builtin, cc *ssa.CallCommon
 			if mt, ok := cc.Args[0].Type().Underlying().(*types.Map); ok {
 				_, _, lk, _, _ := e.mapKeys(mt)
 				r := e.def(v.Name()+fr.suffix, T(SInt, "(ite (= %s 0) 0 (select %s %s))", x.S, e.heapGet(st, lk).S, x.S))
-				e.assume(tTrue, T(SBool, "(>= %s 0)", r.S))
+				e.assume(tTrue, T(SBool, "(and (>= %s 0) (<= %s 1099511627776))", r.S, r.S)) // no map with more than 2^40 entries exists (same assumption as for slices)
 				fr.vals[v] = r
 				return
 			}
@@ -668,11 +754,34 @@ func (e *Enc) loopEnv(fr *Frame, h *ssa.BasicBlock, st *State, edgeFrom *ssa.Bas
 	if lc := fr.hdrEnv[h]; lc != nil {
 		env.pre = lc.preSt
 	}
-	for _, ins := range h.Instrs {
-		if nx, ok := ins.(*ssa.Next); ok && !nx.IsString {
-			if rng, ok := nx.Iter.(*ssa.Range); ok {
-				env.rangeKey, _ = e.rangeSeenKey(fr, rng)
+	rangeOf := func(hb *ssa.BasicBlock) bool {
+		for _, ins := range hb.Instrs {
+			if nx, ok := ins.(*ssa.Next); ok && !nx.IsString {
+				if rng, ok := nx.Iter.(*ssa.Range); ok {
+					if _, isMap := rng.X.Type().Underlying().(*types.Map); isMap {
+						env.rangeKey, _ = e.rangeSeenKey(fr, rng)
+						return true
+					}
+				}
 			}
+		}
+		return false
+	}
+	if !rangeOf(h) {
+		// a loop nested in a range over a map: visited() refers to the innermost enclosing range
+		var best *loopInfo
+		for hb, li := range fr.loops {
+			if hb != h && li.body[h] && (best == nil || len(li.body) < len(best.body)) {
+				save := env.rangeKey
+				if rangeOf(hb) {
+					best = li
+				} else {
+					env.rangeKey = save
+				}
+			}
+		}
+		if best != nil {
+			rangeOf(best.header)
 		}
 	}
 	// parameters (entry values)
